@@ -140,6 +140,7 @@ class Program:
             normalise_fstrings(mi.tree)
             split_parallel_assign(mi.tree)
             inline_private_helpers(mi.tree)
+            split_parallel_assign(mi.tree)
             for n in ast.walk(mi.tree):
                 if isinstance(n, (ast.FunctionDef, ast.AsyncFunctionDef)):
                     inline_local_procedures(n)
@@ -1380,6 +1381,17 @@ def expand_locals(fnode, expr, depth=4):
             for x in ast.walk(st.target):
                 if isinstance(x, ast.Name):
                     defs.setdefault(x.id, []).extend([None, None])
+        elif isinstance(st, ast.Assign) and len(st.targets) == 1 and \
+                isinstance(st.targets[0], (ast.Tuple, ast.List)) and \
+                isinstance(st.value, (ast.Tuple, ast.List)) and \
+                len(st.targets[0].elts) == len(st.value.elts) and \
+                all(isinstance(e, ast.Name) for e in st.targets[0].elts) and \
+                not ({e.id for e in st.targets[0].elts} &
+                     {x.id for x in ast.walk(st.value)
+                      if isinstance(x, ast.Name)}):
+            # a, b = x, y  (no name of the left on the right)
+            for te, ve in zip(st.targets[0].elts, st.value.elts):
+                defs.setdefault(te.id, []).append(ve)
         elif isinstance(st, ast.Assign):
             for t in st.targets:
                 for x in ast.walk(t):
@@ -1398,6 +1410,56 @@ def expand_locals(fnode, expr, depth=4):
                 return T(self.d - 1).visit(copy.deepcopy(defs[n.id][0]))
             return n
     return ast.fix_missing_locations(T(depth).visit(copy.deepcopy(expr)))
+
+
+def index_alternatives(fnode, sub, depth=3):
+    """the index tuples a subscript may be evaluated with, when the index is
+    not written as a literal tuple:  x[lead + (slice(a, b), slice(c, d))]
+    with `lead` bound to tuple literals in the branches of an if / elif.
+    Returns a list of lists of index elements (ast nodes; slice(a, b) calls
+    become ast.Slice) or None when the index cannot be resolved."""
+    def conv(e):
+        if isinstance(e, ast.Call) and isinstance(e.func, ast.Name) and \
+                e.func.id == "slice" and 1 <= len(e.args) <= 3 and \
+                not e.keywords:
+            a = list(e.args)
+            if len(a) == 1:
+                a = [None, a[0]]
+            a += [None] * (3 - len(a))
+            a = [None if isinstance(x, ast.Constant) and x.value is None
+                 else x for x in a]
+            return ast.copy_location(ast.Slice(lower=a[0], upper=a[1],
+                                               step=a[2]), e)
+        return e
+
+    def alts(e, d):
+        if isinstance(e, ast.Tuple):
+            return [[conv(x) for x in e.elts]]
+        if d <= 0:
+            return None
+        if isinstance(e, ast.Name):
+            defs = [st.value for st in walk_no_nested(fnode)
+                    if isinstance(st, ast.Assign) and len(st.targets) == 1
+                    and isinstance(st.targets[0], ast.Name) and
+                    st.targets[0].id == e.id]
+            if not defs:
+                return None
+            out = []
+            for v in defs:
+                a = alts(v, d - 1)
+                if a is None:
+                    return None
+                out += a
+            return out
+        if isinstance(e, ast.BinOp) and isinstance(e.op, ast.Add):
+            la, ra = alts(e.left, d), alts(e.right, d)
+            if la is None or ra is None:
+                return None
+            return [x + y for x in la for y in ra]
+        return None
+    if isinstance(sub.slice, ast.Tuple):
+        return [[conv(x) for x in sub.slice.elts]]
+    return alts(sub.slice, depth)
 
 
 def as_update(stmt):
